@@ -152,8 +152,11 @@ def fuse_layout_failures(x, y, groups, signed=False):
             continue
         Y = yv[key]
         raw = y.blocks[key]
-        if np.asarray(raw).dtype != np.asarray(x.blocks[s]).dtype:
-            fails.append(("C05.dtype", f"block {key!r}: dtype {np.asarray(raw).dtype} != {np.asarray(x.blocks[s]).dtype}"))
+        # a fused block holds several original blocks: its element type is the common type of the array's blocks
+        # (equal to each block's own type unless the array mixes element types)
+        want_dt = np.result_type(*[np.asarray(b).dtype for b in x.blocks.values()])
+        if np.asarray(raw).dtype != want_dt:
+            fails.append(("C05.dtype", f"block {key!r}: dtype {np.asarray(raw).dtype} != {want_dt} (common element type of the stored blocks)"))
         I = np.indices(B.shape) if B.ndim else []
         idx = [I[ax] for ax in before]
         bad = False
@@ -240,8 +243,10 @@ def abelian_equals_transposed(z, x, perm, what):
         want = np.transpose(np.asarray(B), perm)
         if Z is None:
             fails.append(("C05.unfuse_restores", f"{what}: original block {s!r} is missing"))
-        elif np.asarray(Z).dtype != want.dtype or not np.array_equal(np.asarray(Z), want):
-            fails.append(("C05.unfuse_restores", f"{what}: original block {s!r} not restored bit-for-bit"))
+        elif np.asarray(Z).dtype != np.result_type(*[np.asarray(b).dtype for b in x.blocks.values()]) or not np.array_equal(np.asarray(Z), want):
+            # exact values; the element type is that of the original block, except that an array mixing element
+            # types comes back in their common type (a fused block cannot hold two types)
+            fails.append(("C05.unfuse_restores", f"{what}: original block {s!r} not restored exactly"))
     want_keys = {tuple(s[ax] for ax in perm) for s in x.blocks}
     for k, Z in z.blocks.items():
         if k not in want_keys and np.any(np.asarray(Z) != 0):
